@@ -71,3 +71,19 @@ contract(T4 + 'Type4ATag.__init__', 'C12',
                   ('O-fwt', 'self._dep.fwt == 4096 / 13.56E6 * 2**ats_fwi(clf.ats)'),
                   ('O-bn.init', 'self._dep.pni == 0')],
          raises={})
+
+# Type 4B activation: frame size and waiting time come from the protocol info of SENSB_RES (FSCI above 8 and
+# FWI 15 are RFU: 256 octets resp. FWI 4), limited by what the frontend can send
+contract(T4 + 'Type4BTag.__init__', 'C12',
+         dict(self=Obj(T4 + 'Type4BTag', _partial=False),
+              clf=Obj('models.clf_models:AtsClf', _partial=False, ats=Bytes(0, 20), max_send_data_size=Int(16, 65535),
+                      max_recv_data_size=Int(16, 65535)),
+              target=Obj('nfc.clf:RemoteTarget', _partial=False, _brty_send='106B', _brty_recv='106B',
+                         sensb_res=Bytes(12, 13, mutable=True))),
+         name='C12/Type4BTag.activate',
+         ensures=[('O-fsc', 'self._dep.miu + 3 == min(fsc_of(min(target.sensb_res[10] // 16, 8)), '
+                            'clf.max_send_data_size)'),
+                  ('O-fwt', 'self._dep.fwt == 4096 / 13.56E6 * 2**(target.sensb_res[11] // 16 '
+                            'if target.sensb_res[11] // 16 <= 14 else 4)'),
+                  ('O-bn.init', 'self._dep.pni == 0')],
+         raises={})
